@@ -305,8 +305,9 @@ Definition finalise_obj (dirty : gmap addr unit) (p : pers) (xo : addr * obj) : 
   let '(x, o) := xo in
   let is_dirty := bool_decide (is_Some (dirty !! x)) in
   if o_suic o || (is_dirty && obj_empty o) then
-    (* deleteStateObject -> RemoveAccount: the keeper record only *)
-    {| p_keeper := delete x (p_keeper p); p_bal := p_bal p; p_cstore := p_cstore p; p_codes := p_codes p |}
+    (* deleteStateObject -> RemoveAccount: the keeper record is deleted and (since fix 8b9b1c9) the
+       object's in-memory balance is written to the native balance record; storage words stay *)
+    {| p_keeper := delete x (p_keeper p); p_bal := <[x := o_bal o]> (p_bal p); p_cstore := p_cstore p; p_codes := p_codes p |}
   else if is_dirty then
     let p1 := commit_state x o p in
     let codes := if negb (o_cache o =? 0)%N && o_dirtycode o then <[o_hash o := tt]> (p_codes p1) else p_codes p1 in
